@@ -385,6 +385,116 @@ func c13(r *engine.Report, p *engine.Program) {
 	} else {
 		r.Broken("termThenKill not found")
 	}
+	// R1b a rescanned unit is indexed under the canonical name of its directory entry (not under
+	// whatever spelling of the ID the caller used): one directory, one index entry
+	if sfu := p.Func("(*workceptor.Workceptor).scanForUnit"); sfu != nil {
+		au := p.Field("workceptor", "Workceptor", "activeUnits")
+		isEntryName := func(v ssa.Value) bool {
+			c, ok := engine.Unwrap(v).(*ssa.Call)
+			if !ok || !c.Common().IsInvoke() || c.Common().Method.Name() != "Name" {
+				return false
+			}
+			// receiver: the FileInfo returned by os.Stat
+			if e, isE := engine.Unwrap(c.Common().Value).(*ssa.Extract); isE {
+				if sc, isC := e.Tuple.(*ssa.Call); isC && (engine.IsCallTo(sc.Common(), "os.Stat") || engine.IsCallTo(sc.Common(), "os.Lstat")) {
+					return true
+				}
+			}
+			return false
+		}
+		ok, n := true, 0
+		for _, a := range engine.FieldAccessesIn(sfu, au) {
+			var key ssa.Value
+			switch x := a.Instr.(type) {
+			case *ssa.MapUpdate:
+				key = x.Key
+			case *ssa.Lookup:
+				key = x.Index
+			}
+			if key == nil {
+				continue
+			}
+			n++
+			if !isEntryName(key) {
+				ok = false
+			}
+		}
+		for _, ci := range engine.CallsIn(sfu) {
+			// the worker is constructed for the same canonical name
+			if f, _ := engine.FieldOfLoad(ci.Common().Value); f != nil && f.Name() == "newWorkerFunc" {
+				if len(ci.Common().Args) >= 3 && !isEntryName(ci.Common().Args[2]) {
+					ok = false
+				}
+			}
+		}
+		r.Check("R1-unique-id", "scanForUnit: a unit found on disk is looked up, constructed and indexed under its directory entry's own name", sfu.Pos(), ok && n >= 2,
+			fmt.Sprintf("%d index accesses, all keyed by os.Stat(...).Name() of the unit directory", n),
+			"the index key (or the constructed unit's ID) is not the directory entry's name: a path-like alias of an existing unit (./ID, ID/) creates a second known unit on the same directory — its restart rewrites the real unit's record and its release deletes the real unit's files")
+	}
+	// R3b the expiry timer judges the unit by a status read AFTER the timer fired
+	if se := p.Func("(*workceptor.remoteUnit).setExpiration"); se != nil {
+		rsF := p.Field("workceptor", "RemoteExtraData", "RemoteStarted")
+		var sel *ssa.Select
+		for _, b := range se.Blocks {
+			for _, in := range b.Instrs {
+				if x, isS := in.(*ssa.Select); isS {
+					sel = x
+				}
+			}
+		}
+		ok, n := sel != nil, 0
+		if ok {
+			for _, a := range engine.FieldAccessesIn(se, rsF) {
+				if a.Kind != engine.AccLoad {
+					continue
+				}
+				n++
+				// base: typeassert(load ExtraData(Status() call)) — find the Status call
+				v := a.Base
+				var call *ssa.Call
+				for i := 0; i < 12 && v != nil; i++ {
+					switch x := engine.Unwrap(v).(type) {
+					case *ssa.TypeAssert:
+						v = x.X
+					case *ssa.Extract:
+						v = x.Tuple
+					case *ssa.UnOp:
+						v = x.X
+					case *ssa.FieldAddr:
+						v = x.X
+					case *ssa.Call:
+						call = x
+						v = nil
+					case *ssa.Alloc:
+						// a variable captured by a closure: follow its single store
+						var sv ssa.Value
+						ns := 0
+						if refs := x.Referrers(); refs != nil {
+							for _, rr := range *refs {
+								if st, isS := rr.(*ssa.Store); isS && st.Addr == ssa.Value(x) {
+									sv = st.Val
+									ns++
+								}
+							}
+						}
+						if ns == 1 {
+							v = sv
+						} else {
+							v = nil
+						}
+					default:
+						v = nil
+					}
+				}
+				if call == nil || !sel.Block().Dominates(call.Block()) || call.Block() == sel.Block() && !after(sel, call) {
+					ok = false
+				}
+			}
+		}
+		r.Check("R3-monotone-writer", "setExpiration: 'remote work started' is read from the status after the timer fired", se.Pos(), ok && n > 0,
+			"the RemoteStarted value that decides the Failed/'expired' write comes from a Status() call dominated by the timer select",
+			"the expiry decision uses a status snapshot taken when the timer was armed: a unit whose remote work started (or even succeeded) before the ttl is rewritten to Failed when the ttl fires")
+	}
 	// R6 the "finished" predicate every other rule and every poller relies on
 	if ic := p.Func("workceptor.IsComplete"); ic != nil {
 		want := map[string]bool{"WorkStatePending": false, "WorkStateRunning": false, "WorkStateSucceeded": true, "WorkStateFailed": true, "WorkStateCanceled": false}
@@ -414,4 +524,18 @@ func c13(r *engine.Report, p *engine.Program) {
 	}
 	_ = sort.Strings
 	_ = token.NoPos
+}
+
+// after: instruction b comes after a in the same block.
+func after(a, b ssa.Instruction) bool {
+	seen := false
+	for _, in := range a.Block().Instrs {
+		if in == a {
+			seen = true
+		}
+		if in == b {
+			return seen
+		}
+	}
+	return false
 }
